@@ -1,5 +1,5 @@
 (* DepLoad_proofs.v -- lemmas about DepLoad.v (property C15, concurrent loading of a dependency's outputs,
-   with the per-dependency lock of the executor and with lost blobs).
+   with the per-dependency lock of the executor, with lost blobs and with failing lookups of the dependency's target result).
    The theorems restated in properties/C15_depload.v are at the end. *)
 From Coq Require Import Arith Bool List Lia.
 Import ListNotations.
@@ -49,9 +49,9 @@ Lemma map_snd_pair : forall (t : nat) (l : list nat), map snd (map (pair t) l) =
 Proof. intros t l. induction l as [|a l IH]; [reflexivity|]. cbn [map snd]. now rewrite IH. Qed.
 
 (* every projection of every one-field update *)
-Ltac sp := cbn [flag olock lock files pcs requested missing restores reruns obs wrote
+Ltac sp := cbn [flag olock lock files pcs requested missing result_fails restores reruns obs wrote
                 set_pc set_flag set_olock set_lock set_files set_requested log_restore log_rerun log_obs log_wrote].
-Ltac sp_in H := cbn [flag olock lock files pcs requested missing restores reruns obs wrote
+Ltac sp_in H := cbn [flag olock lock files pcs requested missing result_fails restores reruns obs wrote
                 set_pc set_flag set_olock set_lock set_files set_requested log_restore log_rerun log_obs log_wrote] in H.
 
 (* ------------------------------------------------------------------ the steps of the repaired protocol, once *)
@@ -61,7 +61,8 @@ Inductive step_shape (n : nat) (s : state) (t : nat) : stepk -> state -> Prop :=
     step_shape n s t SOuterLock (set_pc (set_olock s (Some t)) t PCheckFlag)
 | sh_check : pcs s t = PCheckFlag ->
     step_shape n s t SCheckFlag (set_pc s t (if flag s then POuterUnlock else PLoadResult))
-| sh_load : pcs s t = PLoadResult -> step_shape n s t SLoadResult (set_pc s t PLock)
+| sh_load : pcs s t = PLoadResult -> result_fails s = false -> step_shape n s t SLoadResult (set_pc s t PLock)
+| sh_loadf : pcs s t = PLoadResult -> result_fails s = true -> step_shape n s t SLoadResult (set_pc s t PRerunStart)
 | sh_lock : pcs s t = PLock -> lock s = None -> step_shape n s t SLock (set_pc (set_lock s (Some t)) t PRecheck)
 | sh_recheck : pcs s t = PRecheck -> step_shape n s t SRecheck (set_pc s t (if flag s then PUnlock else PValidate))
 | sh_validate : pcs s t = PValidate ->
@@ -94,13 +95,14 @@ Qed.
 
 Lemma step_cases : forall n s t k s', step VCorrect n s (t, k) = Some s' -> step_shape n s t k s'.
 Proof.
-  intros n s t k s' H. unfold step in H. cbn [fst snd outer_locked after_validate after_setflag after_restores flag_after_failure] in H.
+  intros n s t k s' H. unfold step in H. cbn [fst snd outer_locked after_validate after_setflag after_restores flag_after_failure
+                           after_start after_outerlock after_checkflag after_loadresult] in H.
   destruct k as [| | | | | | |i| | | |i| | |]; destruct (pcs s t) as [| | | | | | |done| | | | |done| | | |] eqn:Ep;
     try discriminate H.
   - injection H as <-. now constructor.
   - destruct (olock s) eqn:El; [discriminate H|]. injection H as <-. now constructor.
   - injection H as <-. now constructor.
-  - injection H as <-. now constructor.
+  - destruct (result_fails s) eqn:Erf; injection H as <-; [now apply sh_loadf|now apply sh_load].
   - destruct (lock s) eqn:El; [discriminate H|]. injection H as <-. now constructor.
   - injection H as <-. now constructor.
   - injection H as <-. now constructor.
@@ -119,7 +121,7 @@ Qed.
 
 Ltac step_inv H :=
   apply step_cases in H;
-  destruct H as [Hpc|Hpc Hol|Hpc|Hpc|Hpc Hlk|Hpc|Hpc|i0 done0 Hpc Hi0 Hnd0 Hmiss|i0 done0 Hpc Hi0 Hnd0 Hmiss
+  destruct H as [Hpc|Hpc Hol|Hpc|Hpc Hrf|Hpc Hrf|Hpc Hlk|Hpc|Hpc|i0 done0 Hpc Hi0 Hnd0 Hmiss|i0 done0 Hpc Hi0 Hnd0 Hmiss
                 |Hpc|Hpc|Hpc|Hpc|i0 done0 Hpc Hi0 Hnd0|Hpc Hlk|Hpc|Hpc].
 
 (* look through an update of a function at the point u *)
@@ -156,13 +158,14 @@ Proof. intros p. destruct p; cbn; intros H; try discriminate H; reflexivity. Qed
 
 Definition file_of_log (l : list (nat * nat)) (i : nat) : fstate := if memb i (map snd l) then Current else Stale.
 
-Record Inv (n k : nat) (miss : nat -> bool) (s : state) : Prop := mkInv {
+Record Inv (n k : nat) (miss : nat -> bool) (rf : bool) (s : state) : Prop := mkInv {
   inv_oregion : forall t, in_outer_region (pcs s t) = true -> olock s = Some t;
   inv_oholder : forall t, olock s = Some t -> in_outer_region (pcs s t) = true;
   inv_region : forall t, in_locked_region (pcs s t) = true -> lock s = Some t;
   inv_holder : forall t, lock s = Some t -> in_locked_region (pcs s t) = true;
   inv_outside : forall t, k <= t -> pcs s t = PDone;
   inv_missing : missing s = miss;
+  inv_rf : result_fails s = rf;
   inv_noflag : forall t, working (pcs s t) = true -> flag s = false;
   inv_after : forall t, flagged (pcs s t) = true -> flag s = true;
   inv_flag : flag s = true -> forall i, i < n -> files s i = Current;
@@ -185,14 +188,15 @@ Record Inv (n k : nat) (miss : nat -> bool) (s : state) : Prop := mkInv {
   inv_torn : forall i, files s i = Torn -> i < n /\ exists t done, pcs s t = PRerun done /\ ~ In i done
 }.
 
-Lemma inv_init : forall n k miss, Inv n k miss (init k miss).
+Lemma inv_init : forall n k miss rf, Inv n k miss rf (init k miss rf).
 Proof.
-  intros n k miss. constructor; cbn [init flag olock lock files pcs missing restores reruns obs wrote map length].
+  intros n k miss rf. constructor; cbn [init flag olock lock files pcs missing result_fails restores reruns obs wrote map length].
   - intros t. destruct (Nat.ltb t k); discriminate.
   - discriminate.
   - intros t. destruct (Nat.ltb t k); discriminate.
   - discriminate.
   - intros t Ht. destruct (Nat.ltb_spec t k) as [H|H]; [lia|reflexivity].
+  - reflexivity.
   - reflexivity.
   - intros t. destruct (Nat.ltb t k); discriminate.
   - intros t. destruct (Nat.ltb t k); discriminate.
@@ -215,10 +219,10 @@ Proof.
 Qed.
 
 (* at most one task is between OuterLock and OuterUnlock *)
-Lemma excl : forall n k miss s t u, Inv n k miss s ->
+Lemma excl : forall n k miss rf s t u, Inv n k miss rf s ->
   in_outer_region (pcs s t) = true -> in_outer_region (pcs s u) = true -> t = u.
 Proof.
-  intros n k miss s t u I Ht Hu. apply (inv_oregion _ _ _ _ I) in Ht. apply (inv_oregion _ _ _ _ I) in Hu.
+  intros n k miss rf s t u I Ht Hu. apply (inv_oregion _ _ _ _ _ I) in Ht. apply (inv_oregion _ _ _ _ _ I) in Hu.
   rewrite Ht in Hu. now injection Hu.
 Qed.
 
@@ -226,131 +230,134 @@ Qed.
 Ltac own I :=
   match goal with
   | Hpc : pcs ?s ?t = _ |- _ =>
-      try (assert (Hown : olock s = Some t) by (apply (inv_oregion _ _ _ _ I); rewrite Hpc; reflexivity));
-      try (assert (Hlown : lock s = Some t) by (apply (inv_region _ _ _ _ I); rewrite Hpc; reflexivity));
-      try (assert (Hnf : flag s = false) by (apply (inv_noflag _ _ _ _ I t); rewrite Hpc; reflexivity));
-      try (assert (Hfl : flag s = true) by (apply (inv_after _ _ _ _ I t); rewrite Hpc; reflexivity))
+      try (assert (Hown : olock s = Some t) by (apply (inv_oregion _ _ _ _ _ I); rewrite Hpc; reflexivity));
+      try (assert (Hlown : lock s = Some t) by (apply (inv_region _ _ _ _ _ I); rewrite Hpc; reflexivity));
+      try (assert (Hnf : flag s = false) by (apply (inv_noflag _ _ _ _ _ I t); rewrite Hpc; reflexivity));
+      try (assert (Hfl : flag s = true) by (apply (inv_after _ _ _ _ _ I t); rewrite Hpc; reflexivity))
   end.
 
 (* u <> t, both in the outer region: impossible *)
 Ltac by_excl I :=
   match goal with
   | Hne : ?u <> ?t, Hpc : pcs ?s ?t = _ |- _ =>
-      exfalso; apply Hne; apply (excl _ _ _ s u t I);
+      exfalso; apply Hne; apply (excl _ _ _ _ s u t I);
       [first [assumption | apply locked_outer; assumption | apply working_outer; assumption
              | apply pre_restore_outer; assumption | apply rerunning_outer; assumption
              | match goal with Hu : pcs s u = _ |- _ => rewrite Hu; reflexivity end]
       | rewrite Hpc; reflexivity]
   end.
 
-Lemma pres_oregion : forall n k miss s e s', Inv n k miss s -> step VCorrect n s e = Some s' ->
+Lemma pres_oregion : forall n k miss rf s e s', Inv n k miss rf s -> step VCorrect n s e = Some s' ->
   forall u, in_outer_region (pcs s' u) = true -> olock s' = Some u.
 Proof.
-  intros n k miss s [t st] s' I H. step_inv H; own I; sp; intros u Hu; upd_at u t Hu;
-    try discriminate Hu; try reflexivity; try assumption; try (now apply (inv_oregion _ _ _ _ I)).
-  - apply (inv_oregion _ _ _ _ I) in Hu. rewrite Hol in Hu. discriminate Hu.
+  intros n k miss rf s [t st] s' I H. step_inv H; own I; sp; intros u Hu; upd_at u t Hu;
+    try discriminate Hu; try reflexivity; try assumption; try (now apply (inv_oregion _ _ _ _ _ I)).
+  - apply (inv_oregion _ _ _ _ _ I) in Hu. rewrite Hol in Hu. discriminate Hu.
   - by_excl I.
 Qed.
 
-Lemma pres_oholder : forall n k miss s e s', Inv n k miss s -> step VCorrect n s e = Some s' ->
+Lemma pres_oholder : forall n k miss rf s e s', Inv n k miss rf s -> step VCorrect n s e = Some s' ->
   forall u, olock s' = Some u -> in_outer_region (pcs s' u) = true.
 Proof.
-  intros n k miss s [t st] s' I H. step_inv H; own I; sp; intros u Hu; try discriminate Hu;
+  intros n k miss rf s [t st] s' I H. step_inv H; own I; sp; intros u Hu; try discriminate Hu;
     try (rewrite Hown in Hu; injection Hu as <-; rewrite upd_same; try reflexivity).
   all: try solve [destruct (flag s); reflexivity | destruct (all_done n _); reflexivity].
-  - upd_goal u t; [|now apply (inv_oholder _ _ _ _ I)]. apply (inv_oholder _ _ _ _ I) in Hu. rewrite Hpc in Hu. discriminate Hu.
+  - upd_goal u t; [|now apply (inv_oholder _ _ _ _ _ I)]. apply (inv_oholder _ _ _ _ _ I) in Hu. rewrite Hpc in Hu. discriminate Hu.
   - injection Hu as <-. now rewrite upd_same.
-  - upd_goal u t; [|now apply (inv_oholder _ _ _ _ I)]. apply (inv_oholder _ _ _ _ I) in Hu. rewrite Hpc in Hu. discriminate Hu.
+  - upd_goal u t; [|now apply (inv_oholder _ _ _ _ _ I)]. apply (inv_oholder _ _ _ _ _ I) in Hu. rewrite Hpc in Hu. discriminate Hu.
 Qed.
 
-Lemma pres_region : forall n k miss s e s', Inv n k miss s -> step VCorrect n s e = Some s' ->
+Lemma pres_region : forall n k miss rf s e s', Inv n k miss rf s -> step VCorrect n s e = Some s' ->
   forall u, in_locked_region (pcs s' u) = true -> lock s' = Some u.
 Proof.
-  intros n k miss s [t st] s' I H. step_inv H; own I; sp; intros u Hu; upd_at u t Hu;
-    try discriminate Hu; try reflexivity; try assumption; try (now apply (inv_region _ _ _ _ I)).
+  intros n k miss rf s [t st] s' I H. step_inv H; own I; sp; intros u Hu; upd_at u t Hu;
+    try discriminate Hu; try reflexivity; try assumption; try (now apply (inv_region _ _ _ _ _ I)).
   all: try solve [destruct (flag s); discriminate Hu | destruct (all_done n _); discriminate Hu].
   all: try solve [apply locked_outer in Hu; by_excl I].
 Qed.
 
-Lemma pres_holder : forall n k miss s e s', Inv n k miss s -> step VCorrect n s e = Some s' ->
+Lemma pres_holder : forall n k miss rf s e s', Inv n k miss rf s -> step VCorrect n s e = Some s' ->
   forall u, lock s' = Some u -> in_locked_region (pcs s' u) = true.
 Proof.
-  intros n k miss s [t st] s' I H. step_inv H; own I; sp; intros u Hu; try discriminate Hu;
+  intros n k miss rf s [t st] s' I H. step_inv H; own I; sp; intros u Hu; try discriminate Hu;
     try (rewrite Hlown in Hu; injection Hu as <-; rewrite upd_same; try reflexivity).
   all: try solve [destruct (flag s); reflexivity | destruct (all_done n _); reflexivity].
   all: try solve [injection Hu as <-; now rewrite upd_same].
-  all: apply (inv_holder _ _ _ _ I) in Hu; upd_goal u t; try exact Hu; rewrite Hpc in Hu; discriminate Hu.
+  all: apply (inv_holder _ _ _ _ _ I) in Hu; upd_goal u t; try exact Hu; rewrite Hpc in Hu; discriminate Hu.
 Qed.
 
-Lemma pres_outside : forall n k miss s e s', Inv n k miss s -> step VCorrect n s e = Some s' ->
+Lemma pres_outside : forall n k miss rf s e s', Inv n k miss rf s -> step VCorrect n s e = Some s' ->
   forall u, k <= u -> pcs s' u = PDone.
 Proof.
-  intros n k miss s [t st] s' I H.
-  assert (Hu' : forall u, k <= u -> pcs s u = PDone) by apply (inv_outside _ _ _ _ I).
+  intros n k miss rf s [t st] s' I H.
+  assert (Hu' : forall u, k <= u -> pcs s u = PDone) by apply (inv_outside _ _ _ _ _ I).
   step_inv H; sp; intros u Hu; (upd_goal u t; [|now apply Hu']);
     apply Hu' in Hu; rewrite Hpc in Hu; try discriminate Hu; reflexivity.
 Qed.
 
-Lemma pres_missing : forall n k miss s e s', Inv n k miss s -> step VCorrect n s e = Some s' -> missing s' = miss.
-Proof. intros n k miss s [t st] s' I H. step_inv H; sp; exact (inv_missing _ _ _ _ I). Qed.
+Lemma pres_missing : forall n k miss rf s e s', Inv n k miss rf s -> step VCorrect n s e = Some s' -> missing s' = miss.
+Proof. intros n k miss rf s [t st] s' I H. step_inv H; sp; exact (inv_missing _ _ _ _ _ I). Qed.
 
-Lemma pres_noflag : forall n k miss s e s', Inv n k miss s -> step VCorrect n s e = Some s' ->
+Lemma pres_rf : forall n k miss rf s e s', Inv n k miss rf s -> step VCorrect n s e = Some s' -> result_fails s' = rf.
+Proof. intros n k miss rf s [t st] s' I H. step_inv H; sp; exact (inv_rf _ _ _ _ _ I). Qed.
+
+Lemma pres_noflag : forall n k miss rf s e s', Inv n k miss rf s -> step VCorrect n s e = Some s' ->
   forall u, working (pcs s' u) = true -> flag s' = false.
 Proof.
-  intros n k miss s [t st] s' I H. step_inv H; own I; sp; intros u Hu; upd_at u t Hu;
-    try discriminate Hu; try assumption; try (now apply (inv_noflag _ _ _ _ I u)).
+  intros n k miss rf s [t st] s' I H. step_inv H; own I; sp; intros u Hu; upd_at u t Hu;
+    try discriminate Hu; try assumption; try (now apply (inv_noflag _ _ _ _ _ I u)).
   all: try solve [destruct (flag s); [discriminate Hu|reflexivity]].
   all: apply working_outer in Hu; by_excl I.
 Qed.
 
-Lemma pres_after : forall n k miss s e s', Inv n k miss s -> step VCorrect n s e = Some s' ->
+Lemma pres_after : forall n k miss rf s e s', Inv n k miss rf s -> step VCorrect n s e = Some s' ->
   forall u, flagged (pcs s' u) = true -> flag s' = true.
 Proof.
-  intros n k miss s [t st] s' I H. step_inv H; own I; sp; intros u Hu; upd_at u t Hu;
-    try discriminate Hu; try reflexivity; try assumption; try (now apply (inv_after _ _ _ _ I u)).
+  intros n k miss rf s [t st] s' I H. step_inv H; own I; sp; intros u Hu; upd_at u t Hu;
+    try discriminate Hu; try reflexivity; try assumption; try (now apply (inv_after _ _ _ _ _ I u)).
   all: try solve [destruct (flag s); [reflexivity|discriminate Hu] | destruct (all_done n _); discriminate Hu].
 Qed.
 
-Lemma pres_flag : forall n k miss s e s', Inv n k miss s -> step VCorrect n s e = Some s' ->
+Lemma pres_flag : forall n k miss rf s e s', Inv n k miss rf s -> step VCorrect n s e = Some s' ->
   flag s' = true -> forall i, i < n -> files s' i = Current.
 Proof.
-  intros n k miss s [t st] s' I H. step_inv H; own I; sp; intros Hf j Hj;
-    try (rewrite Hnf in Hf; discriminate Hf); try (now apply (inv_flag _ _ _ _ I)).
-  - now apply (inv_setflag _ _ _ _ I t).
-  - now apply (inv_complete _ _ _ _ I t).
+  intros n k miss rf s [t st] s' I H. step_inv H; own I; sp; intros Hf j Hj;
+    try (rewrite Hnf in Hf; discriminate Hf); try (now apply (inv_flag _ _ _ _ _ I)).
+  - now apply (inv_setflag _ _ _ _ _ I t).
+  - now apply (inv_complete _ _ _ _ _ I t).
 Qed.
 
-Lemma pres_pristine : forall n k miss s e s', Inv n k miss s -> step VCorrect n s e = Some s' ->
+Lemma pres_pristine : forall n k miss rf s e s', Inv n k miss rf s -> step VCorrect n s e = Some s' ->
   forall u, pre_restore (pcs s' u) = true -> flag s' = false -> restores s' = [] /\ reruns s' = [].
 Proof.
-  intros n k miss s [t st] s' I H. step_inv H; own I; sp; intros u Hu Hf; upd_at u t Hu;
-    try discriminate Hu; try (now apply (inv_pristine _ _ _ _ I u)).
+  intros n k miss rf s [t st] s' I H. step_inv H; own I; sp; intros u Hu Hf; upd_at u t Hu;
+    try discriminate Hu; try (now apply (inv_pristine _ _ _ _ _ I u)).
   all: try solve [apply pre_restore_outer in Hu; by_excl I].
-  all: try solve [apply (inv_pristine _ _ _ _ I t); [rewrite Hpc; reflexivity|assumption]].
+  all: try solve [apply (inv_pristine _ _ _ _ _ I t); [rewrite Hpc; reflexivity|assumption]].
   all: try solve [destruct (all_done n _); discriminate Hu].
-  now apply (inv_idle _ _ _ _ I).
+  now apply (inv_idle _ _ _ _ _ I).
 Qed.
 
-Lemma pres_idle : forall n k miss s e s', Inv n k miss s -> step VCorrect n s e = Some s' ->
+Lemma pres_idle : forall n k miss rf s e s', Inv n k miss rf s -> step VCorrect n s e = Some s' ->
   olock s' = None -> flag s' = false -> restores s' = [] /\ reruns s' = [].
 Proof.
-  intros n k miss s [t st] s' I H. step_inv H; own I; sp; intros Ho Hf;
-    try (rewrite Hown in Ho; discriminate Ho); try discriminate Ho; try (now apply (inv_idle _ _ _ _ I)).
+  intros n k miss rf s [t st] s' I H. step_inv H; own I; sp; intros Ho Hf;
+    try (rewrite Hown in Ho; discriminate Ho); try discriminate Ho; try (now apply (inv_idle _ _ _ _ _ I)).
   rewrite Hfl in Hf. discriminate Hf.
 Qed.
 
-Lemma pres_restore : forall n k miss s e s', Inv n k miss s -> step VCorrect n s e = Some s' ->
+Lemma pres_restore : forall n k miss rf s e s', Inv n k miss rf s -> step VCorrect n s e = Some s' ->
   forall u done, pcs s' u = PRestore done ->
   all_done n done = false /\ restores s' = map (pair u) done /\ reruns s' = [].
 Proof.
-  intros n k miss s [t st] s' I H. step_inv H; own I; sp; intros u done Hu; upd_at u t Hu;
-    try discriminate Hu; try (now apply (inv_restore _ _ _ _ I u)).
+  intros n k miss rf s [t st] s' I H. step_inv H; own I; sp; intros u done Hu; upd_at u t Hu;
+    try discriminate Hu; try (now apply (inv_restore _ _ _ _ _ I u)).
   all: try solve [by_excl I].
   all: try solve [destruct (flag s); discriminate Hu].
   - destruct (all_done n []) eqn:Ea; [discriminate Hu|]. injection Hu as <-.
-    destruct (inv_pristine _ _ _ _ I t) as [Hr Hq]; [rewrite Hpc; reflexivity|assumption|]. now rewrite Hr, Hq.
+    destruct (inv_pristine _ _ _ _ _ I t) as [Hr Hq]; [rewrite Hpc; reflexivity|assumption|]. now rewrite Hr, Hq.
   - destruct (all_done n (i0 :: done0)) eqn:Ea; [discriminate Hu|]. injection Hu as <-.
-    destruct (inv_restore _ _ _ _ I t done0 Hpc) as (_ & Hr & Hq). rewrite Hr. now split.
+    destruct (inv_restore _ _ _ _ _ I t done0 Hpc) as (_ & Hr & Hq). rewrite Hr. now split.
   - destruct (all_done n []); discriminate Hu.
   - destruct (all_done n (i0 :: done0)); discriminate Hu.
 Qed.
@@ -364,78 +371,78 @@ Qed.
 Lemma upd_ext : forall (A : Type) (f g : nat -> A) i x j, f j = g j -> upd f i x j = upd g i x j.
 Proof. intros A f g i x j H. unfold upd. now destruct (Nat.eqb j i). Qed.
 
-Lemma pres_files : forall n k miss s e s', Inv n k miss s -> step VCorrect n s e = Some s' ->
+Lemma pres_files : forall n k miss rf s e s', Inv n k miss rf s -> step VCorrect n s e = Some s' ->
   reruns s' = [] -> forall i, files s' i = file_of_log (restores s') i.
 Proof.
-  intros n k miss s [t st] s' I H. step_inv H; sp; intros Hq j; try (now apply (inv_files _ _ _ _ I)).
-  - rewrite file_of_log_cons. apply upd_ext. now apply (inv_files _ _ _ _ I).
+  intros n k miss rf s [t st] s' I H. step_inv H; sp; intros Hq j; try (now apply (inv_files _ _ _ _ _ I)).
+  - rewrite file_of_log_cons. apply upd_ext. now apply (inv_files _ _ _ _ _ I).
   - discriminate Hq.
-  - destruct (inv_rerun _ _ _ _ I t done0 Hpc) as (_ & Hne & _). contradiction.
+  - destruct (inv_rerun _ _ _ _ _ I t done0 Hpc) as (_ & Hne & _). contradiction.
 Qed.
 
-Lemma pres_log : forall n k miss s e s', Inv n k miss s -> step VCorrect n s e = Some s' ->
+Lemma pres_log : forall n k miss rf s e s', Inv n k miss rf s -> step VCorrect n s e = Some s' ->
   forall u i, In (u, i) (restores s') -> i < n /\ missing s' i = false.
 Proof.
-  intros n k miss s [t st] s' I H. step_inv H; sp; intros u j Hin; try (now apply (inv_log _ _ _ _ I u)).
-  destruct Hin as [Hin|Hin]; [injection Hin as _ <-; now split|now apply (inv_log _ _ _ _ I u)].
+  intros n k miss rf s [t st] s' I H. step_inv H; sp; intros u j Hin; try (now apply (inv_log _ _ _ _ _ I u)).
+  destruct Hin as [Hin|Hin]; [injection Hin as _ <-; now split|now apply (inv_log _ _ _ _ _ I u)].
 Qed.
 
-Lemma pres_once : forall n k miss s e s', Inv n k miss s -> step VCorrect n s e = Some s' ->
+Lemma pres_once : forall n k miss rf s e s', Inv n k miss rf s -> step VCorrect n s e = Some s' ->
   NoDup (map snd (restores s')).
 Proof.
-  intros n k miss s [t st] s' I H. step_inv H; sp; try exact (inv_once _ _ _ _ I).
-  cbn [map snd]. constructor; [|exact (inv_once _ _ _ _ I)].
-  destruct (inv_restore _ _ _ _ I t done0 Hpc) as (_ & Hr & _). now rewrite Hr, map_snd_pair.
+  intros n k miss rf s [t st] s' I H. step_inv H; sp; try exact (inv_once _ _ _ _ _ I).
+  cbn [map snd]. constructor; [|exact (inv_once _ _ _ _ _ I)].
+  destruct (inv_restore _ _ _ _ _ I t done0 Hpc) as (_ & Hr & _). now rewrite Hr, map_snd_pair.
 Qed.
 
 Lemma upd_files_current : forall (f : nat -> fstate) i j, f j = Current -> upd f i Current j = Current.
 Proof. intros f i j H. unfold upd. now destruct (Nat.eqb j i). Qed.
 
 (* inside the restore loop the outputs restored so far are current *)
-Lemma restored_current : forall n k miss s t done, Inv n k miss s -> pcs s t = PRestore done ->
+Lemma restored_current : forall n k miss rf s t done, Inv n k miss rf s -> pcs s t = PRestore done ->
   forall j, In j done -> files s j = Current.
 Proof.
-  intros n k miss s t done I Hpc j Hj. destruct (inv_restore _ _ _ _ I t done Hpc) as (_ & Hr & Hq).
-  rewrite (inv_files _ _ _ _ I Hq). unfold file_of_log. rewrite Hr, map_snd_pair.
+  intros n k miss rf s t done I Hpc j Hj. destruct (inv_restore _ _ _ _ _ I t done Hpc) as (_ & Hr & Hq).
+  rewrite (inv_files _ _ _ _ _ I Hq). unfold file_of_log. rewrite Hr, map_snd_pair.
   apply memb_In in Hj. now rewrite Hj.
 Qed.
 
-Lemma pres_setflag : forall n k miss s e s', Inv n k miss s -> step VCorrect n s e = Some s' ->
+Lemma pres_setflag : forall n k miss rf s e s', Inv n k miss rf s -> step VCorrect n s e = Some s' ->
   forall u, pcs s' u = PSetFlag -> forall i, i < n -> files s' i = Current.
 Proof.
-  intros n k miss s [t st] s' I H. step_inv H; own I; sp; intros u Hu; upd_at u t Hu;
-    try discriminate Hu; try (now apply (inv_setflag _ _ _ _ I u)).
+  intros n k miss rf s [t st] s' I H. step_inv H; own I; sp; intros u Hu; upd_at u t Hu;
+    try discriminate Hu; try (now apply (inv_setflag _ _ _ _ _ I u)).
   all: try solve [by_excl I].
   all: try solve [destruct (flag s); discriminate Hu].
   - destruct (all_done n []) eqn:Ea; [|discriminate Hu]. apply all_done_nil in Ea. intros i Hi. lia.
   - destruct (all_done n (i0 :: done0)) eqn:Ea; [|discriminate Hu]. intros j Hj.
     destruct (proj1 (all_done_spec _ _) Ea j Hj) as [<-|Hin]; [apply upd_same|].
-    apply upd_files_current. now apply (restored_current n k miss s t done0 I Hpc).
+    apply upd_files_current. now apply (restored_current n k miss rf s t done0 I Hpc).
   - destruct (all_done n []); discriminate Hu.
   - destruct (all_done n (i0 :: done0)); discriminate Hu.
 Qed.
 
-Lemma pres_rerun : forall n k miss s e s', Inv n k miss s -> step VCorrect n s e = Some s' ->
+Lemma pres_rerun : forall n k miss rf s e s', Inv n k miss rf s -> step VCorrect n s e = Some s' ->
   forall u done, pcs s' u = PRerun done ->
   all_done n done = false /\ reruns s' <> [] /\ forall i, In i done -> files s' i = Current.
 Proof.
-  intros n k miss s [t st] s' I H. step_inv H; own I; sp; intros u done Hu; upd_at u t Hu;
-    try discriminate Hu; try (now apply (inv_rerun _ _ _ _ I u)).
+  intros n k miss rf s [t st] s' I H. step_inv H; own I; sp; intros u done Hu; upd_at u t Hu;
+    try discriminate Hu; try (now apply (inv_rerun _ _ _ _ _ I u)).
   all: try solve [by_excl I].
   all: try solve [destruct (flag s); discriminate Hu].
   - destruct (all_done n []); discriminate Hu.
   - destruct (all_done n (i0 :: done0)); discriminate Hu.
   - destruct (all_done n []) eqn:Ea; [discriminate Hu|]. injection Hu as <-. split; [exact Ea|]. split; [discriminate|intros i []].
   - destruct (all_done n (i0 :: done0)) eqn:Ea; [discriminate Hu|]. injection Hu as <-.
-    destruct (inv_rerun _ _ _ _ I t done0 Hpc) as (_ & Hq & Hf). split; [exact Ea|]. split; [exact Hq|].
+    destruct (inv_rerun _ _ _ _ _ I t done0 Hpc) as (_ & Hq & Hf). split; [exact Ea|]. split; [exact Hq|].
     intros j [<-|Hj]; [apply upd_same|]. apply upd_files_current. now apply Hf.
 Qed.
 
-Lemma pres_complete : forall n k miss s e s', Inv n k miss s -> step VCorrect n s e = Some s' ->
+Lemma pres_complete : forall n k miss rf s e s', Inv n k miss rf s -> step VCorrect n s e = Some s' ->
   forall u, pcs s' u = PComplete -> forall i, i < n -> files s' i = Current.
 Proof.
-  intros n k miss s [t st] s' I H. step_inv H; own I; sp; intros u Hu; upd_at u t Hu;
-    try discriminate Hu; try (now apply (inv_complete _ _ _ _ I u)).
+  intros n k miss rf s [t st] s' I H. step_inv H; own I; sp; intros u Hu; upd_at u t Hu;
+    try discriminate Hu; try (now apply (inv_complete _ _ _ _ _ I u)).
   all: try solve [by_excl I].
   all: try solve [destruct (flag s); discriminate Hu].
   - destruct (all_done n []); discriminate Hu.
@@ -443,30 +450,30 @@ Proof.
   - destruct (all_done n []) eqn:Ea; [|discriminate Hu]. apply all_done_nil in Ea. intros i Hi. lia.
   - destruct (all_done n (i0 :: done0)) eqn:Ea; [|discriminate Hu]. intros j Hj.
     destruct (proj1 (all_done_spec _ _) Ea j Hj) as [<-|Hin]; [apply upd_same|].
-    apply upd_files_current. now apply (proj2 (proj2 (inv_rerun _ _ _ _ I t done0 Hpc))).
+    apply upd_files_current. now apply (proj2 (proj2 (inv_rerun _ _ _ _ _ I t done0 Hpc))).
 Qed.
 
 (* d's command has not run when a task is about to start it *)
-Lemma no_rerun_yet : forall n k miss s t, Inv n k miss s -> pcs s t = PRerunStart -> reruns s = [].
+Lemma no_rerun_yet : forall n k miss rf s t, Inv n k miss rf s -> pcs s t = PRerunStart -> reruns s = [].
 Proof.
-  intros n k miss s t I Hpc. destruct (reruns s) as [|r l] eqn:Er; [reflexivity|]. exfalso.
-  destruct (inv_acct _ _ _ _ I) as [Hf|[u Hu]]; [rewrite Er; discriminate| |].
-  - rewrite (inv_noflag _ _ _ _ I t) in Hf by (now rewrite Hpc). discriminate Hf.
-  - assert (E : u = t) by (apply (excl _ _ _ s u t I); [now apply rerunning_outer|now rewrite Hpc]).
+  intros n k miss rf s t I Hpc. destruct (reruns s) as [|r l] eqn:Er; [reflexivity|]. exfalso.
+  destruct (inv_acct _ _ _ _ _ I) as [Hf|[u Hu]]; [rewrite Er; discriminate| |].
+  - rewrite (inv_noflag _ _ _ _ _ I t) in Hf by (now rewrite Hpc). discriminate Hf.
+  - assert (E : u = t) by (apply (excl _ _ _ _ s u t I); [now apply rerunning_outer|now rewrite Hpc]).
     subst u. rewrite Hpc in Hu. discriminate Hu.
 Qed.
 
-Lemma pres_reruns : forall n k miss s e s', Inv n k miss s -> step VCorrect n s e = Some s' -> length (reruns s') <= 1.
+Lemma pres_reruns : forall n k miss rf s e s', Inv n k miss rf s -> step VCorrect n s e = Some s' -> length (reruns s') <= 1.
 Proof.
-  intros n k miss s [t st] s' I H. step_inv H; sp; try exact (inv_reruns _ _ _ _ I).
-  rewrite (no_rerun_yet n k miss s t I Hpc). cbn [length]. lia.
+  intros n k miss rf s [t st] s' I H. step_inv H; sp; try exact (inv_reruns _ _ _ _ _ I).
+  rewrite (no_rerun_yet n k miss rf s t I Hpc). cbn [length]. lia.
 Qed.
 
-Lemma pres_acct : forall n k miss s e s', Inv n k miss s -> step VCorrect n s e = Some s' ->
+Lemma pres_acct : forall n k miss rf s e s', Inv n k miss rf s -> step VCorrect n s e = Some s' ->
   reruns s' <> [] -> flag s' = true \/ exists u, rerunning (pcs s' u) = true.
 Proof.
-  intros n k miss s [t st] s' I H.
-  assert (A := inv_acct _ _ _ _ I).
+  intros n k miss rf s [t st] s' I H.
+  assert (A := inv_acct _ _ _ _ _ I).
   step_inv H; sp; intros Hq;
     try (destruct (A Hq) as [Hf|[u Hu]];
          [now left
@@ -484,27 +491,27 @@ Proof.
   rewrite H by lia. reflexivity.
 Qed.
 
-Lemma pres_obs : forall n k miss s e s', Inv n k miss s -> step VCorrect n s e = Some s' ->
+Lemma pres_obs : forall n k miss rf s e s', Inv n k miss rf s -> step VCorrect n s e = Some s' ->
   forall u o, In (u, o) (obs s') -> saw_all_current n o = true.
 Proof.
-  intros n k miss s [t st] s' I H. step_inv H; own I; sp; intros u o Hu; try (now apply (inv_obs _ _ _ _ I u)).
-  destruct Hu as [Hu|Hu]; [|now apply (inv_obs _ _ _ _ I u)]. injection Hu as <- <-.
-  apply observe_current. now apply (inv_flag _ _ _ _ I).
+  intros n k miss rf s [t st] s' I H. step_inv H; own I; sp; intros u o Hu; try (now apply (inv_obs _ _ _ _ _ I u)).
+  destruct Hu as [Hu|Hu]; [|now apply (inv_obs _ _ _ _ _ I u)]. injection Hu as <- <-.
+  apply observe_current. now apply (inv_flag _ _ _ _ _ I).
 Qed.
 
-Lemma pres_wrote : forall n k miss s e s', Inv n k miss s -> step VCorrect n s e = Some s' ->
+Lemma pres_wrote : forall n k miss rf s e s', Inv n k miss rf s -> step VCorrect n s e = Some s' ->
   forall u o, In (u, o) (wrote s') -> saw_all_current n o = true.
 Proof.
-  intros n k miss s [t st] s' I H. step_inv H; sp; intros u o Hu; try (now apply (inv_wrote _ _ _ _ I u)).
-  destruct Hu as [Hu|Hu]; [|now apply (inv_wrote _ _ _ _ I u)]. injection Hu as <- <-.
-  apply observe_current. now apply (inv_complete _ _ _ _ I t).
+  intros n k miss rf s [t st] s' I H. step_inv H; sp; intros u o Hu; try (now apply (inv_wrote _ _ _ _ _ I u)).
+  destruct Hu as [Hu|Hu]; [|now apply (inv_wrote _ _ _ _ _ I u)]. injection Hu as <- <-.
+  apply observe_current. now apply (inv_complete _ _ _ _ _ I t).
 Qed.
 
-Lemma pres_done : forall n k miss s e s', Inv n k miss s -> step VCorrect n s e = Some s' ->
+Lemma pres_done : forall n k miss rf s e s', Inv n k miss rf s -> step VCorrect n s e = Some s' ->
   forall u, u < k -> pcs s' u = PDone -> exists o, In (u, o) (obs s').
 Proof.
-  intros n k miss s [t st] s' I H.
-  assert (Hu' : forall u, u < k -> pcs s u = PDone -> exists o, In (u, o) (obs s)) by apply (inv_done _ _ _ _ I).
+  intros n k miss rf s [t st] s' I H.
+  assert (Hu' : forall u, u < k -> pcs s u = PDone -> exists o, In (u, o) (obs s)) by apply (inv_done _ _ _ _ _ I).
   step_inv H; sp; intros u Hk Hu; upd_at u t Hu; try discriminate Hu; try (now apply (Hu' u)).
   all: try solve [destruct (flag s); discriminate Hu | destruct (all_done n _); discriminate Hu].
   - exists (observe n s). now left.
@@ -512,11 +519,11 @@ Proof.
 Qed.
 
 (* a file is torn only while a task runs d's command and has not written it yet *)
-Lemma pres_torn : forall n k miss s e s', Inv n k miss s -> step VCorrect n s e = Some s' ->
+Lemma pres_torn : forall n k miss rf s e s', Inv n k miss rf s -> step VCorrect n s e = Some s' ->
   forall i, files s' i = Torn -> i < n /\ exists u done, pcs s' u = PRerun done /\ ~ In i done.
 Proof.
-  intros n k miss s [t st] s' I H.
-  assert (T := inv_torn _ _ _ _ I).
+  intros n k miss rf s [t st] s' I H.
+  assert (T := inv_torn _ _ _ _ _ I).
   assert (Keep : forall j p, (forall d, pcs s t <> PRerun d) -> files s j = Torn ->
             j < n /\ exists u done, upd (pcs s) t p u = PRerun done /\ ~ In j done).
   { intros j p Hp Hj. destruct (T j Hj) as [Hn (u & done & Hu & Hd)]. split; [exact Hn|]. exists u, done.
@@ -531,52 +538,53 @@ Proof.
   - assert (Hji : j <> i0) by (intros E; rewrite E, upd_same in Hj; discriminate Hj).
     rewrite upd_other in Hj by exact Hji.
     destruct (T j Hj) as [Hn (u & done & Hu & Hd)]. split; [exact Hn|].
-    assert (E : u = t) by (apply (excl _ _ _ s u t I); [now rewrite Hu|now rewrite Hpc]). subst u.
+    assert (E : u = t) by (apply (excl _ _ _ _ s u t I); [now rewrite Hu|now rewrite Hpc]). subst u.
     rewrite Hpc in Hu. injection Hu as <-. exists t. rewrite upd_same.
     destruct (all_done n (i0 :: done0)) eqn:Ea.
     + exfalso. destruct (proj1 (all_done_spec _ _) Ea j Hn) as [E|Hin]; [now apply Hji|now apply Hd].
     + exists (i0 :: done0). split; [reflexivity|]. intros [E|Hin]; [now apply Hji|now apply Hd].
 Qed.
 
-Lemma inv_step : forall n k miss s e s', Inv n k miss s -> step VCorrect n s e = Some s' -> Inv n k miss s'.
+Lemma inv_step : forall n k miss rf s e s', Inv n k miss rf s -> step VCorrect n s e = Some s' -> Inv n k miss rf s'.
 Proof.
-  intros n k miss s e s' I H. constructor.
-  - exact (pres_oregion n k miss s e s' I H).
-  - exact (pres_oholder n k miss s e s' I H).
-  - exact (pres_region n k miss s e s' I H).
-  - exact (pres_holder n k miss s e s' I H).
-  - exact (pres_outside n k miss s e s' I H).
-  - exact (pres_missing n k miss s e s' I H).
-  - exact (pres_noflag n k miss s e s' I H).
-  - exact (pres_after n k miss s e s' I H).
-  - exact (pres_flag n k miss s e s' I H).
-  - exact (pres_pristine n k miss s e s' I H).
-  - exact (pres_idle n k miss s e s' I H).
-  - exact (pres_restore n k miss s e s' I H).
-  - exact (pres_files n k miss s e s' I H).
-  - exact (pres_log n k miss s e s' I H).
-  - exact (pres_once n k miss s e s' I H).
-  - exact (pres_setflag n k miss s e s' I H).
-  - exact (pres_rerun n k miss s e s' I H).
-  - exact (pres_complete n k miss s e s' I H).
-  - exact (pres_reruns n k miss s e s' I H).
-  - exact (pres_acct n k miss s e s' I H).
-  - exact (pres_obs n k miss s e s' I H).
-  - exact (pres_wrote n k miss s e s' I H).
-  - exact (pres_done n k miss s e s' I H).
-  - exact (pres_torn n k miss s e s' I H).
+  intros n k miss rf s e s' I H. constructor.
+  - exact (pres_oregion n k miss rf s e s' I H).
+  - exact (pres_oholder n k miss rf s e s' I H).
+  - exact (pres_region n k miss rf s e s' I H).
+  - exact (pres_holder n k miss rf s e s' I H).
+  - exact (pres_outside n k miss rf s e s' I H).
+  - exact (pres_missing n k miss rf s e s' I H).
+  - exact (pres_rf n k miss rf s e s' I H).
+  - exact (pres_noflag n k miss rf s e s' I H).
+  - exact (pres_after n k miss rf s e s' I H).
+  - exact (pres_flag n k miss rf s e s' I H).
+  - exact (pres_pristine n k miss rf s e s' I H).
+  - exact (pres_idle n k miss rf s e s' I H).
+  - exact (pres_restore n k miss rf s e s' I H).
+  - exact (pres_files n k miss rf s e s' I H).
+  - exact (pres_log n k miss rf s e s' I H).
+  - exact (pres_once n k miss rf s e s' I H).
+  - exact (pres_setflag n k miss rf s e s' I H).
+  - exact (pres_rerun n k miss rf s e s' I H).
+  - exact (pres_complete n k miss rf s e s' I H).
+  - exact (pres_reruns n k miss rf s e s' I H).
+  - exact (pres_acct n k miss rf s e s' I H).
+  - exact (pres_obs n k miss rf s e s' I H).
+  - exact (pres_wrote n k miss rf s e s' I H).
+  - exact (pres_done n k miss rf s e s' I H).
+  - exact (pres_torn n k miss rf s e s' I H).
 Qed.
 
-Lemma inv_run : forall n k miss evs s s', Inv n k miss s -> run VCorrect n s evs = Some s' -> Inv n k miss s'.
+Lemma inv_run : forall n k miss rf evs s s', Inv n k miss rf s -> run VCorrect n s evs = Some s' -> Inv n k miss rf s'.
 Proof.
-  intros n k miss evs. induction evs as [|e r IH]; intros s s' I H; cbn [run] in H.
+  intros n k miss rf evs. induction evs as [|e r IH]; intros s s' I H; cbn [run] in H.
   - injection H as <-. exact I.
   - destruct (step VCorrect n s e) as [s1|] eqn:E; [|discriminate H]. apply (IH s1 s'); [|exact H].
-    exact (inv_step n k miss s e s1 I E).
+    exact (inv_step n k miss rf s e s1 I E).
 Qed.
 
-Lemma inv_reachable : forall n k miss s, reachable VCorrect n k miss s -> Inv n k miss s.
-Proof. intros n k miss s [evs H]. exact (inv_run n k miss evs (init k miss) s (inv_init n k miss) H). Qed.
+Lemma inv_reachable : forall n k miss rf s, reachable VCorrect n k miss rf s -> Inv n k miss rf s.
+Proof. intros n k miss rf s [evs H]. exact (inv_run n k miss rf evs (init k miss rf) s (inv_init n k miss rf) H). Qed.
 
 Lemma run_app : forall v n evs1 evs2 s,
   run v n s (evs1 ++ evs2) = match run v n s evs1 with Some s1 => run v n s1 evs2 | None => None end.
@@ -585,9 +593,9 @@ Proof.
   destruct (step v n s e) as [s1|]; [apply IH|reflexivity].
 Qed.
 
-Lemma reachable_step : forall v n k miss s e s', reachable v n k miss s -> step v n s e = Some s' -> reachable v n k miss s'.
+Lemma reachable_step : forall v n k miss rf s e s', reachable v n k miss rf s -> step v n s e = Some s' -> reachable v n k miss rf s'.
 Proof.
-  intros v n k miss s e s' [evs H] Hs. exists (evs ++ [e]). rewrite run_app, H. cbn [run]. now rewrite Hs.
+  intros v n k miss rf s e s' [evs H] Hs. exists (evs ++ [e]). rewrite run_app, H. cbn [run]. now rewrite Hs.
 Qed.
 
 (* ------------------------------------------------------------------ 1-3: safety, with any set of lost blobs *)
@@ -600,10 +608,10 @@ Proof.
   - intros ->. split; [apply repeat_length|]. induction n as [|n IH]; [reflexivity|]. cbn. exact IH.
 Qed.
 
-Lemma cmd_sees_current : forall n k miss s, reachable VCorrect n k miss s ->
+Lemma cmd_sees_current : forall n k miss rf s, reachable VCorrect n k miss rf s ->
   forall t o, In (t, o) (obs s) -> o = repeat Current n.
 Proof.
-  intros n k miss s Hr t o Hin. apply saw_all_current_repeat. exact (inv_obs _ _ _ _ (inv_reachable n k miss s Hr) t o Hin).
+  intros n k miss rf s Hr t o Hin. apply saw_all_current_repeat. exact (inv_obs _ _ _ _ _ (inv_reachable n k miss rf s Hr) t o Hin).
 Qed.
 
 Lemma forallb_current_repeat : forall m, forallb is_current (repeat Current m) = true.
@@ -612,23 +620,23 @@ Proof. intros m. induction m as [|m IH]; [reflexivity|exact IH]. Qed.
 Lemma existsb_torn_repeat : forall m, existsb is_torn (repeat Current m) = false.
 Proof. intros m. induction m as [|m IH]; [reflexivity|exact IH]. Qed.
 
-Lemma cmd_never_saw_stale : forall n k miss s, reachable VCorrect n k miss s -> cmd_saw_stale s = false.
+Lemma cmd_never_saw_stale : forall n k miss rf s, reachable VCorrect n k miss rf s -> cmd_saw_stale s = false.
 Proof.
-  intros n k miss s Hr. unfold cmd_saw_stale. destruct (existsb _ (obs s)) eqn:E; [|reflexivity].
+  intros n k miss rf s Hr. unfold cmd_saw_stale. destruct (existsb _ (obs s)) eqn:E; [|reflexivity].
   apply existsb_exists in E. destruct E as [[t o] [Hin Hb]]. cbn [snd] in Hb.
-  rewrite (cmd_sees_current n k miss s Hr t o Hin), forallb_current_repeat in Hb. discriminate Hb.
+  rewrite (cmd_sees_current n k miss rf s Hr t o Hin), forallb_current_repeat in Hb. discriminate Hb.
 Qed.
 
-Lemma done_task_observed : forall n k miss s, reachable VCorrect n k miss s ->
+Lemma done_task_observed : forall n k miss rf s, reachable VCorrect n k miss rf s ->
   forall t, t < k -> pcs s t = PDone -> In (t, repeat Current n) (obs s).
 Proof.
-  intros n k miss s Hr t Ht Hd. destruct (inv_done _ _ _ _ (inv_reachable n k miss s Hr) t Ht Hd) as [o Ho].
-  now rewrite <- (cmd_sees_current n k miss s Hr t o Ho).
+  intros n k miss rf s Hr t Ht Hd. destruct (inv_done _ _ _ _ _ (inv_reachable n k miss rf s Hr) t Ht Hd) as [o Ho].
+  now rewrite <- (cmd_sees_current n k miss rf s Hr t o Ho).
 Qed.
 
-Lemma flag_implies_restored : forall n k miss s, reachable VCorrect n k miss s ->
+Lemma flag_implies_restored : forall n k miss rf s, reachable VCorrect n k miss rf s ->
   flag s = true -> forall i, i < n -> files s i = Current.
-Proof. intros n k miss s Hr. exact (inv_flag _ _ _ _ (inv_reachable n k miss s Hr)). Qed.
+Proof. intros n k miss rf s Hr. exact (inv_flag _ _ _ _ _ (inv_reachable n k miss rf s Hr)). Qed.
 
 Lemma file_of_log_current : forall l i, file_of_log l i = Current <-> exists t, In (t, i) l.
 Proof.
@@ -639,70 +647,139 @@ Proof.
     apply in_map_iff. exists (t, i). now split.
 Qed.
 
-Lemma restored_once : forall n k miss s, reachable VCorrect n k miss s ->
+Lemma restored_once : forall n k miss rf s, reachable VCorrect n k miss rf s ->
   NoDup (map snd (restores s)) /\
   (forall t i, In (t, i) (restores s) -> i < n /\ miss i = false) /\
   (reruns s = [] -> forall i, files s i = Current <-> exists t, In (t, i) (restores s)).
 Proof.
-  intros n k miss s Hr. assert (I := inv_reachable n k miss s Hr). split; [exact (inv_once _ _ _ _ I)|]. split.
-  - intros t i Hin. rewrite <- (inv_missing _ _ _ _ I). exact (inv_log _ _ _ _ I t i Hin).
-  - intros Hq i. rewrite (inv_files _ _ _ _ I Hq). apply file_of_log_current.
+  intros n k miss rf s Hr. assert (I := inv_reachable n k miss rf s Hr). split; [exact (inv_once _ _ _ _ _ I)|]. split.
+  - intros t i Hin. rewrite <- (inv_missing _ _ _ _ _ I). exact (inv_log _ _ _ _ _ I t i Hin).
+  - intros Hq i. rewrite (inv_files _ _ _ _ _ I Hq). apply file_of_log_current.
 Qed.
 
-Lemma restore_by_holder_of_stale : forall n k miss s t i s', reachable VCorrect n k miss s ->
+Lemma restore_by_holder_of_stale : forall n k miss rf s t i s', reachable VCorrect n k miss rf s ->
   step VCorrect n s (t, SRestore i) = Some s' ->
   olock s = Some t /\ lock s = Some t /\ flag s = false /\ files s i = Stale.
 Proof.
-  intros n k miss s t i s' Hr H. assert (I := inv_reachable n k miss s Hr).
+  intros n k miss rf s t i s' Hr H. assert (I := inv_reachable n k miss rf s Hr).
   remember (SRestore i) as st eqn:Est.
   step_inv H; try discriminate Est; injection Est as ->; own I; (do 3 (split; [assumption|]));
-    destruct (inv_restore _ _ _ _ I t done0 Hpc) as (_ & Hr' & Hq);
-    rewrite (inv_files _ _ _ _ I Hq); unfold file_of_log; rewrite Hr', map_snd_pair;
+    destruct (inv_restore _ _ _ _ _ I t done0 Hpc) as (_ & Hr' & Hq);
+    rewrite (inv_files _ _ _ _ _ I Hq); unfold file_of_log; rewrite Hr', map_snd_pair;
     apply memb_false in Hnd0; now rewrite Hnd0.
 Qed.
 
 (* ------------------------------------------------------------------ 4: the dependency's command is re-run at most once *)
-Lemma rerun_at_most_once : forall n k miss s, reachable VCorrect n k miss s -> length (reruns s) <= 1.
-Proof. intros n k miss s Hr. exact (inv_reruns _ _ _ _ (inv_reachable n k miss s Hr)). Qed.
+Lemma rerun_at_most_once : forall n k miss rf s, reachable VCorrect n k miss rf s -> length (reruns s) <= 1.
+Proof. intros n k miss rf s Hr. exact (inv_reruns _ _ _ _ _ (inv_reachable n k miss rf s Hr)). Qed.
 
-Lemma rerun_by_outer_holder : forall n k miss s t s', reachable VCorrect n k miss s ->
+Lemma rerun_by_outer_holder : forall n k miss rf s t s', reachable VCorrect n k miss rf s ->
   step VCorrect n s (t, SRerunStart) = Some s' ->
   olock s = Some t /\ lock s = None /\ flag s = false /\ reruns s = [].
 Proof.
-  intros n k miss s t s' Hr H. assert (I := inv_reachable n k miss s Hr).
+  intros n k miss rf s t s' Hr H. assert (I := inv_reachable n k miss rf s Hr).
   remember SRerunStart as st eqn:Est.
   step_inv H; try discriminate Est. own I. split; [assumption|]. split.
   - destruct (lock s) as [h|] eqn:El; [|reflexivity]. exfalso.
-    assert (Hh := inv_holder _ _ _ _ I h El).
-    assert (E : h = t) by (apply (excl _ _ _ s h t I); [now apply locked_outer|now rewrite Hpc]).
+    assert (Hh := inv_holder _ _ _ _ _ I h El).
+    assert (E : h = t) by (apply (excl _ _ _ _ s h t I); [now apply locked_outer|now rewrite Hpc]).
     subst h. rewrite Hpc in Hh. discriminate Hh.
-  - split; [assumption|]. exact (no_rerun_yet n k miss s t I Hpc).
+  - split; [assumption|]. exact (no_rerun_yet n k miss rf s t I Hpc).
 Qed.
 
-Lemma wrote_current : forall n k miss s, reachable VCorrect n k miss s ->
+Lemma wrote_current : forall n k miss rf s, reachable VCorrect n k miss rf s ->
   forall t o, In (t, o) (wrote s) -> o = repeat Current n.
 Proof.
-  intros n k miss s Hr t o Hin. apply saw_all_current_repeat. exact (inv_wrote _ _ _ _ (inv_reachable n k miss s Hr) t o Hin).
+  intros n k miss rf s Hr t o Hin. apply saw_all_current_repeat. exact (inv_wrote _ _ _ _ _ (inv_reachable n k miss rf s Hr) t o Hin).
 Qed.
 
-Lemma never_torn : forall n k miss s, reachable VCorrect n k miss s -> cmd_saw_torn s = false /\ cached_torn s = false.
+Lemma never_torn : forall n k miss rf s, reachable VCorrect n k miss rf s -> cmd_saw_torn s = false /\ cached_torn s = false.
 Proof.
-  intros n k miss s Hr. split.
+  intros n k miss rf s Hr. split.
   - unfold cmd_saw_torn. destruct (existsb _ (obs s)) eqn:E; [|reflexivity].
     apply existsb_exists in E. destruct E as [[t o] [Hin Hb]]. cbn [snd] in Hb.
-    rewrite (cmd_sees_current n k miss s Hr t o Hin), existsb_torn_repeat in Hb. discriminate Hb.
+    rewrite (cmd_sees_current n k miss rf s Hr t o Hin), existsb_torn_repeat in Hb. discriminate Hb.
   - unfold cached_torn. destruct (existsb _ (wrote s)) eqn:E; [|reflexivity].
     apply existsb_exists in E. destruct E as [[t o] [Hin Hb]]. cbn [snd] in Hb.
-    rewrite (wrote_current n k miss s Hr t o Hin), existsb_torn_repeat in Hb. discriminate Hb.
+    rewrite (wrote_current n k miss rf s Hr t o Hin), existsb_torn_repeat in Hb. discriminate Hb.
 Qed.
 
 (* a file is torn only while the holder of the outer lock runs d's command and has not written it yet *)
-Lemma torn_only_during_rerun : forall n k miss s, reachable VCorrect n k miss s ->
+Lemma torn_only_during_rerun : forall n k miss rf s, reachable VCorrect n k miss rf s ->
   forall i, files s i = Torn -> i < n /\ exists t done, olock s = Some t /\ pcs s t = PRerun done /\ ~ In i done.
 Proof.
-  intros n k miss s Hr i Hi. assert (I := inv_reachable n k miss s Hr).
-  destruct (inv_torn _ _ _ _ I i Hi) as [Hn (t & done & Hp & Hd)]. split; [exact Hn|]. exists t, done.
-  split; [|now split]. apply (inv_oregion _ _ _ _ I). now rewrite Hp.
+  intros n k miss rf s Hr i Hi. assert (I := inv_reachable n k miss rf s Hr).
+  destruct (inv_torn _ _ _ _ _ I i Hi) as [Hn (t & done & Hp & Hd)]. split; [exact Hn|]. exists t, done.
+  split; [|now split]. apply (inv_oregion _ _ _ _ _ I). now rewrite Hp.
+Qed.
+
+(* ------------------------------------------------------------------ 4b: the result lookups fail *)
+(* not at the door of, nor inside, Registry.LoadOutputs *)
+Definition no_load (p : pc) : bool :=
+  match p with PLock | PRecheck | PValidate | PRestore _ | PSetFlag | PUnlock | PUnlockF => false | _ => true end.
+
+Record InvR (k : nat) (s : state) : Prop := mkInvR {
+  invr_noload : forall t, no_load (pcs s t) = true;
+  invr_restores : restores s = [];
+  invr_flag : flag s = true -> reruns s <> [];
+  invr_complete : forall t, pcs s t = PComplete -> reruns s <> [];
+  invr_done : forall t, t < k -> pcs s t = PDone -> flag s = true
+}.
+
+Lemma invr_init : forall k miss rf, InvR k (init k miss rf).
+Proof.
+  intros k miss rf. constructor; cbn [init flag pcs restores reruns].
+  - intros t. destruct (Nat.ltb t k); reflexivity.
+  - reflexivity.
+  - discriminate.
+  - intros t. destruct (Nat.ltb t k); discriminate.
+  - intros t Ht. destruct (Nat.ltb_spec t k) as [H|H]; [discriminate|lia].
+Qed.
+
+Lemma invr_step : forall n k miss s e s', Inv n k miss true s -> InvR k s -> step VCorrect n s e = Some s' -> InvR k s'.
+Proof.
+  intros n k miss s [t st] s' I R H.
+  assert (Hrf' := inv_rf _ _ _ _ _ I).
+  assert (Nl := invr_noload _ _ R t).
+  step_inv H; rewrite Hpc in Nl; try discriminate Nl; try (rewrite Hrf' in Hrf; discriminate Hrf); own I.
+  all: constructor; sp.
+  all: try exact (invr_restores _ _ R).
+  all: try (intros u; upd_goal u t; [try reflexivity|exact (invr_noload _ _ R u)]).
+  all: try solve [destruct (flag s); reflexivity | destruct (all_done n _); reflexivity].
+  all: try (intros Hf; first [exact (invr_flag _ _ R Hf) | discriminate]).
+  all: try (intros u Hc; upd_at u t Hc; try discriminate Hc; try discriminate; try exact (invr_complete _ _ R u Hc)).
+  all: try (intros u Hu Hd; upd_at u t Hd; try discriminate Hd; try reflexivity; try assumption; try exact (invr_done _ _ R u Hu Hd)).
+  all: try solve [destruct (flag s); discriminate Hd | destruct (all_done n _); discriminate Hd].
+  - destruct (flag s); discriminate Hc.
+  - destruct (inv_rerun _ _ _ _ _ I t done0 Hpc) as (_ & Hq & _). exact Hq.
+  - intros _. exact (invr_complete _ _ R t Hpc).
+Qed.
+
+Lemma invr_run : forall n k miss evs s s', Inv n k miss true s -> InvR k s -> run VCorrect n s evs = Some s' -> InvR k s'.
+Proof.
+  intros n k miss evs. induction evs as [|e r IH]; intros s s' I R H; cbn [run] in H.
+  - injection H as <-. exact R.
+  - destruct (step VCorrect n s e) as [s1|] eqn:E; [|discriminate H].
+    exact (IH s1 s' (inv_step n k miss true s e s1 I E) (invr_step n k miss s e s1 I R E) H).
+Qed.
+
+(* when the result lookups fail nothing is ever restored, nobody enters Registry.LoadOutputs, and once the flag is set --
+   in particular once some dependant has run its command -- d's command has run exactly once *)
+Lemma result_fault_one_rerun : forall n k miss s, reachable VCorrect n k miss true s ->
+  restores s = [] /\ lock s = None /\
+  (flag s = true -> length (reruns s) = 1) /\
+  (forall t, t < k -> pcs s t = PDone -> length (reruns s) = 1).
+Proof.
+  intros n k miss s Hr. assert (I := inv_reachable n k miss true s Hr). destruct Hr as [evs Hrun].
+  assert (R := invr_run n k miss evs _ s (inv_init n k miss true) (invr_init k miss true) Hrun).
+  assert (Hone : flag s = true -> length (reruns s) = 1).
+  { intros Hf. assert (Hq := invr_flag _ _ R Hf). assert (Hle := inv_reruns _ _ _ _ _ I).
+    destruct (reruns s) as [|a l]; [now contradiction Hq|]. cbn [length] in *. lia. }
+  split; [exact (invr_restores _ _ R)|]. split.
+  - destruct (lock s) as [h|] eqn:El; [|reflexivity]. exfalso.
+    assert (Hh := inv_holder _ _ _ _ _ I h El). assert (Nl := invr_noload _ _ R h).
+    destruct (pcs s h); cbn in Hh, Nl; congruence.
+  - split; [exact Hone|]. intros t Ht Hd. apply Hone. exact (invr_done _ _ R t Ht Hd).
 Qed.
 
 (* ------------------------------------------------------------------ 5: progress *)
@@ -724,12 +801,12 @@ Qed.
 Ltac fire st Ep := left; exists st; unfold step; cbn [fst snd outer_locked]; rewrite Ep; eexists; reflexivity.
 
 (* a task that is not done can step, unless it waits for a lock that somebody holds *)
-Lemma enabled_or_blocked : forall n k miss s t, Inv n k miss s -> pcs s t <> PDone ->
+Lemma enabled_or_blocked : forall n k miss rf s t, Inv n k miss rf s -> pcs s t <> PDone ->
   (exists st s', step VCorrect n s (t, st) = Some s') \/
   (pcs s t = POuterLock /\ exists h, olock s = Some h) \/
   ((pcs s t = PLock \/ pcs s t = PComplete) /\ exists h, lock s = Some h).
 Proof.
-  intros n k miss s t I Hnd.
+  intros n k miss rf s t I Hnd.
   destruct (pcs s t) as [| | | | | | |done| | | | |done| | | |] eqn:Ep.
   - fire SStart Ep.
   - destruct (olock s) as [h|] eqn:El.
@@ -742,7 +819,7 @@ Proof.
     + left. exists SLock. unfold step; cbn [fst snd]. rewrite Ep, El. eexists. reflexivity.
   - fire SRecheck Ep.
   - fire SValidate Ep.
-  - destruct (all_done_false n done (proj1 (inv_restore _ _ _ _ I t done Ep))) as [i [Hi Hni]].
+  - destruct (all_done_false n done (proj1 (inv_restore _ _ _ _ _ I t done Ep))) as [i [Hi Hni]].
     left. exists (SRestore i). unfold step; cbn [fst snd]; rewrite Ep.
     apply Nat.ltb_lt in Hi. apply memb_false in Hni. rewrite Hi, Hni. cbn [andb negb].
     destruct (missing s i); eexists; reflexivity.
@@ -750,7 +827,7 @@ Proof.
   - fire SUnlock Ep.
   - fire SUnlock Ep.
   - fire SRerunStart Ep.
-  - destruct (all_done_false n done (proj1 (inv_rerun _ _ _ _ I t done Ep))) as [i [Hi Hni]].
+  - destruct (all_done_false n done (proj1 (inv_rerun _ _ _ _ _ I t done Ep))) as [i [Hi Hni]].
     left. exists (SRerunWrite i). unfold step; cbn [fst snd]; rewrite Ep.
     apply Nat.ltb_lt in Hi. apply memb_false in Hni. rewrite Hi, Hni. cbn [andb negb]. eexists; reflexivity.
   - destruct (lock s) as [h|] eqn:El.
@@ -762,11 +839,11 @@ Proof.
 Qed.
 
 (* the registry's lock is only ever held by the holder of the outer lock: nobody waits for it *)
-Lemma inner_lock_free_for_outer_holder : forall n k miss s t h, Inv n k miss s ->
+Lemma inner_lock_free_for_outer_holder : forall n k miss rf s t h, Inv n k miss rf s ->
   in_outer_region (pcs s t) = true -> in_locked_region (pcs s t) = false -> lock s = Some h -> False.
 Proof.
-  intros n k miss s t h I Ho Hl El. assert (Hh := inv_holder _ _ _ _ I h El).
-  assert (E : h = t) by (apply (excl _ _ _ s h t I); [now apply locked_outer|exact Ho]).
+  intros n k miss rf s t h I Ho Hl El. assert (Hh := inv_holder _ _ _ _ _ I h El).
+  assert (E : h = t) by (apply (excl _ _ _ _ s h t I); [now apply locked_outer|exact Ho]).
   subst h. rewrite Hl in Hh. discriminate Hh.
 Qed.
 
@@ -783,27 +860,27 @@ Proof.
 Qed.
 
 (* the holder of the outer lock can always step *)
-Lemma outer_holder_enabled : forall n k miss s h, Inv n k miss s -> olock s = Some h ->
+Lemma outer_holder_enabled : forall n k miss rf s h, Inv n k miss rf s -> olock s = Some h ->
   exists st s', step VCorrect n s (h, st) = Some s'.
 Proof.
-  intros n k miss s h I Ho. assert (Hreg := inv_oholder _ _ _ _ I h Ho).
+  intros n k miss rf s h I Ho. assert (Hreg := inv_oholder _ _ _ _ _ I h Ho).
   assert (Hh : pcs s h <> PDone) by (intros E; rewrite E in Hreg; discriminate Hreg).
-  destruct (enabled_or_blocked n k miss s h I Hh) as [Hen|[[Hp _]|[Hp [h' Hl]]]].
+  destruct (enabled_or_blocked n k miss rf s h I Hh) as [Hen|[[Hp _]|[Hp [h' Hl]]]].
   - exact Hen.
   - rewrite Hp in Hreg. discriminate Hreg.
-  - exfalso. apply (inner_lock_free_for_outer_holder n k miss s h h' I Hreg); [|exact Hl].
+  - exfalso. apply (inner_lock_free_for_outer_holder n k miss rf s h h' I Hreg); [|exact Hl].
     destruct Hp as [Hp|Hp]; rewrite Hp; reflexivity.
 Qed.
 
-Lemma no_deadlock : forall n k miss s, reachable VCorrect n k miss s ->
+Lemma no_deadlock : forall n k miss rf s, reachable VCorrect n k miss rf s ->
   all_tasks_done k s \/ exists e s', step VCorrect n s e = Some s'.
 Proof.
-  intros n k miss s Hr. assert (I := inv_reachable n k miss s Hr).
+  intros n k miss rf s Hr. assert (I := inv_reachable n k miss rf s Hr).
   destruct (all_done_or_not s k) as [Hall|[t [Ht Hp]]]; [now left|]. right.
-  destruct (enabled_or_blocked n k miss s t I Hp) as [(st & s' & Hs)|[[Hpl [h Hl]]|[Hpl [h Hl]]]].
+  destruct (enabled_or_blocked n k miss rf s t I Hp) as [(st & s' & Hs)|[[Hpl [h Hl]]|[Hpl [h Hl]]]].
   - now exists (t, st), s'.
-  - destruct (outer_holder_enabled n k miss s h I Hl) as (st & s' & Hs). now exists (h, st), s'.
-  - exfalso. apply (inner_lock_free_for_outer_holder n k miss s t h I); [| |exact Hl];
+  - destruct (outer_holder_enabled n k miss rf s h I Hl) as (st & s' & Hs). now exists (h, st), s'.
+  - exfalso. apply (inner_lock_free_for_outer_holder n k miss rf s t h I); [| |exact Hl];
       destruct Hpl as [Hpl|Hpl]; rewrite Hpl; reflexivity.
 Qed.
 
@@ -872,12 +949,12 @@ Proof.
   - apply in_seq. lia.
 Qed.
 
-Lemma step_decreases : forall n k miss s e s', Inv n k miss s -> step VCorrect n s e = Some s' -> measure n k s' < measure n k s.
+Lemma step_decreases : forall n k miss rf s e s', Inv n k miss rf s -> step VCorrect n s e = Some s' -> measure n k s' < measure n k s.
 Proof.
-  intros n k miss s [t st] s' I H.
+  intros n k miss rf s [t st] s' I H.
   assert (Ht : t < k).
   { destruct (Nat.lt_ge_cases t k) as [Hlt|Hge]; [exact Hlt|]. exfalso.
-    assert (Hd := inv_outside _ _ _ _ I t Hge). step_inv H; rewrite Hd in Hpc; discriminate Hpc. }
+    assert (Hd := inv_outside _ _ _ _ _ I t Hge). step_inv H; rewrite Hd in Hpc; discriminate Hpc. }
   step_inv H; (eapply measure_upd_lt; [exact Ht|sp; reflexivity|rewrite Hpc; cbn [pc_measure]]);
     try lia; try (destruct (flag s); cbn [pc_measure]; lia).
   - destruct (all_done n []); cbn [pc_measure]; [lia|]. rewrite remaining_nil. lia.
@@ -888,50 +965,50 @@ Proof.
     destruct (all_done n (i0 :: done0)); cbn [pc_measure]; lia.
 Qed.
 
-Lemma measure_init : forall n k miss, measure n k (init k miss) = run_bound n k.
+Lemma measure_init : forall n k miss rf, measure n k (init k miss rf) = run_bound n k.
 Proof.
-  intros n k miss. unfold measure, run_bound.
+  intros n k miss rf. unfold measure, run_bound.
   assert (H : forall l, (forall t, In t l -> t < k) ->
-            list_sum (map (fun t => pc_measure n (pcs (init k miss) t)) l) = length l * (2 * n + 14)).
+            list_sum (map (fun t => pc_measure n (pcs (init k miss rf) t)) l) = length l * (2 * n + 14)).
   { intros l. induction l as [|a l IH]; intros Hl; [reflexivity|].
-    change (list_sum (map (fun t => pc_measure n (pcs (init k miss) t)) (a :: l)))
-      with (pc_measure n (pcs (init k miss) a) + list_sum (map (fun t => pc_measure n (pcs (init k miss) t)) l)).
+    change (list_sum (map (fun t => pc_measure n (pcs (init k miss rf) t)) (a :: l)))
+      with (pc_measure n (pcs (init k miss rf) a) + list_sum (map (fun t => pc_measure n (pcs (init k miss rf) t)) l)).
     rewrite IH by (intros t Ht; apply Hl; now right).
     assert (Ha : a < k) by (apply Hl; now left). cbn [init pcs]. apply Nat.ltb_lt in Ha. rewrite Ha.
     cbn [pc_measure length]. lia. }
   rewrite H by (intros t Ht; apply in_seq in Ht; lia). now rewrite seq_length.
 Qed.
 
-Lemma run_length : forall n k miss evs s s', Inv n k miss s -> run VCorrect n s evs = Some s' ->
+Lemma run_length : forall n k miss rf evs s s', Inv n k miss rf s -> run VCorrect n s evs = Some s' ->
   length evs + measure n k s' <= measure n k s.
 Proof.
-  intros n k miss evs. induction evs as [|e r IH]; intros s s' I H; cbn [run] in H.
+  intros n k miss rf evs. induction evs as [|e r IH]; intros s s' I H; cbn [run] in H.
   - injection H as <-. cbn [length]. lia.
   - destruct (step VCorrect n s e) as [s1|] eqn:E; [|discriminate H].
-    assert (Hd := step_decreases n k miss s e s1 I E). assert (I1 := inv_step n k miss s e s1 I E).
+    assert (Hd := step_decreases n k miss rf s e s1 I E). assert (I1 := inv_step n k miss rf s e s1 I E).
     specialize (IH s1 s' I1 H). cbn [length]. lia.
 Qed.
 
-Lemma run_bounded : forall n k miss evs s, run VCorrect n (init k miss) evs = Some s -> length evs <= run_bound n k.
+Lemma run_bounded : forall n k miss rf evs s, run VCorrect n (init k miss rf) evs = Some s -> length evs <= run_bound n k.
 Proof.
-  intros n k miss evs s H. assert (Hl := run_length n k miss evs (init k miss) s (inv_init n k miss) H).
+  intros n k miss rf evs s H. assert (Hl := run_length n k miss rf evs (init k miss rf) s (inv_init n k miss rf) H).
   rewrite measure_init in Hl. lia.
 Qed.
 
 (* from every reachable state some continuation ends with every command run (and it cannot run for ever: run_bounded) *)
-Lemma can_finish : forall n k miss s, reachable VCorrect n k miss s ->
+Lemma can_finish : forall n k miss rf s, reachable VCorrect n k miss rf s ->
   exists evs s', run VCorrect n s evs = Some s' /\ all_tasks_done k s'.
 Proof.
-  intros n k miss s Hr. remember (measure n k s) as m eqn:Em.
+  intros n k miss rf s Hr. remember (measure n k s) as m eqn:Em.
   assert (Hm : measure n k s <= m) by lia. clear Em. revert s Hr Hm.
   induction m as [|m IH]; intros s Hr Hm.
-  - destruct (no_deadlock n k miss s Hr) as [Hd|(e & s1 & Hs)].
+  - destruct (no_deadlock n k miss rf s Hr) as [Hd|(e & s1 & Hs)].
     + exists [], s. now split.
-    + assert (Hd := step_decreases n k miss s e s1 (inv_reachable n k miss s Hr) Hs). lia.
-  - destruct (no_deadlock n k miss s Hr) as [Hd|(e & s1 & Hs)].
+    + assert (Hd := step_decreases n k miss rf s e s1 (inv_reachable n k miss rf s Hr) Hs). lia.
+  - destruct (no_deadlock n k miss rf s Hr) as [Hd|(e & s1 & Hs)].
     + exists [], s. now split.
-    + assert (Hd := step_decreases n k miss s e s1 (inv_reachable n k miss s Hr) Hs).
-      destruct (IH s1 (reachable_step _ n k miss s e s1 Hr Hs)) as (evs & s' & Hrun & Hall); [lia|].
+    + assert (Hd := step_decreases n k miss rf s e s1 (inv_reachable n k miss rf s Hr) Hs).
+      destruct (IH s1 (reachable_step _ n k miss rf s e s1 Hr Hs)) as (evs & s' & Hrun & Hall); [lia|].
       exists (e :: evs), s'. cbn [run]. rewrite Hs. now split.
 Qed.
 
@@ -968,20 +1045,54 @@ Definition sched_torn_cached : list event :=
   to_rerun 0 ++ [(0, SRerunStart)] ++ to_rerun 1 ++ [(0, SRerunWrite 0); (1, SRerunStart); (0, SComplete)].
 
 Lemma no_outer_lock_refuted :
-  run_fault_summary VNoOuterLock 1 2 all_blobs_missing sched_torn_read = Some (true, false, 2) /\
-  run_fault_summary VNoOuterLock 1 2 all_blobs_missing sched_torn_cached = Some (false, true, 2).
+  run_fault_summary VNoOuterLock 1 2 all_blobs_missing false sched_torn_read = Some (true, false, 2) /\
+  run_fault_summary VNoOuterLock 1 2 all_blobs_missing false sched_torn_cached = Some (false, true, 2).
 Proof. split; vm_compute; reflexivity. Qed.
 
 (* with the outer lock these are not schedules: 1 cannot pass OuterLock while 0 works on d *)
 Lemma no_outer_lock_schedules_blocked :
-  run_fault_summary VCorrect 1 2 all_blobs_missing sched_torn_read = None /\
-  run_fault_summary VCorrect 1 2 all_blobs_missing sched_torn_cached = None /\
-  run VCorrect 1 (init 2 all_blobs_missing) (to_rerun 0 ++ [(0, SRerunStart); (1, SStart); (1, SOuterLock)]) = None.
+  run_fault_summary VCorrect 1 2 all_blobs_missing false sched_torn_read = None /\
+  run_fault_summary VCorrect 1 2 all_blobs_missing false sched_torn_cached = None /\
+  run VCorrect 1 (init 2 all_blobs_missing false) (to_rerun 0 ++ [(0, SRerunStart); (1, SStart); (1, SOuterLock)]) = None.
 Proof. repeat split; vm_compute; reflexivity. Qed.
 
+(* seed C15j, the flag check and the result lookup made before the outer lock, no re-check under it; the result lookups
+   fail (no blob is lost): both dependants decide "re-run" before either holds the lock *)
+Definition lookup_early (t : nat) : list event := [(t, SStart); (t, SCheckFlag); (t, SLoadResult)].
+Definition remake (t : nat) : list event := [(t, SOuterLock); (t, SRerunStart); (t, SRerunWrite 0); (t, SComplete); (t, SOuterUnlock)].
+(* 0 has re-made d and released the lock; 1 takes it and starts d's command AGAIN; 0's command reads a torn file *)
+Definition sched_lookup_torn : list event :=
+  lookup_early 0 ++ lookup_early 1 ++ remake 0 ++ [(1, SOuterLock); (1, SRerunStart); (0, SRunCmd)].
+(* the same, but 0's command runs before 1 starts d's command: nobody sees a torn file, d's command still runs twice *)
+Definition sched_lookup_twice : list event :=
+  lookup_early 0 ++ lookup_early 1 ++ remake 0 ++ [(0, SRunCmd)] ++ remake 1 ++ [(1, SRunCmd)].
+
+Lemma lookup_before_lock_refuted :
+  run_fault_summary VLookupBeforeLock 1 2 no_blob_missing true sched_lookup_torn = Some (true, false, 2) /\
+  run_fault_summary VLookupBeforeLock 1 2 no_blob_missing true sched_lookup_twice = Some (false, false, 2).
+Proof. split; vm_compute; reflexivity. Qed.
+
+(* in the real order these are not schedules (the flag is read under the lock) ... *)
+Lemma lookup_before_lock_schedules_blocked :
+  run_fault_summary VCorrect 1 2 no_blob_missing true sched_lookup_torn = None /\
+  run_fault_summary VCorrect 1 2 no_blob_missing true sched_lookup_twice = None.
+Proof. split; vm_compute; reflexivity. Qed.
+
+(* ... and the seeded order is harmless for the OTHER fault (the blob lost, the result readable): the second dependant goes
+   through Registry.LoadOutputs, which does read the flag again under its own lock -- why a harness whose only fault
+   is a lost blob cannot see this seed *)
+Definition sched_lookup_blob_fault : list event :=
+  lookup_early 0 ++ lookup_early 1 ++
+  [(0, SOuterLock); (0, SLock); (0, SRecheck); (0, SValidate); (0, SRestore 0); (0, SUnlock); (0, SRerunStart);
+   (0, SRerunWrite 0); (0, SComplete); (0, SOuterUnlock); (1, SOuterLock); (1, SLock); (1, SRecheck); (1, SUnlock);
+   (1, SOuterUnlock); (0, SRunCmd); (1, SRunCmd)].
+Lemma lookup_before_lock_blob_fault_harmless :
+  run_fault_summary VLookupBeforeLock 1 2 all_blobs_missing false sched_lookup_blob_fault = Some (false, false, 1).
+Proof. vm_compute. reflexivity. Qed.
+
 (* ------------------------------------------------------------------ 7: non-vacuity *)
-Definition complete_and_current (n k : nat) (miss : nat -> bool) (evs : list event) (n_restores n_reruns : nat) : bool :=
-  match run VCorrect n (init k miss) evs with
+Definition complete_and_current (n k : nat) (miss : nat -> bool) (rf : bool) (evs : list event) (n_restores n_reruns : nat) : bool :=
+  match run VCorrect n (init k miss rf) evs with
   | Some s => forallb (fun t => is_done (pcs s t)) (seq 0 k) && Nat.eqb (length (obs s)) k
               && forallb (fun to => saw_all_current n (snd to)) (obs s) && Nat.eqb (length (restores s)) n_restores
               && Nat.eqb (length (reruns s)) n_reruns && forallb (fun to => saw_all_current n (snd to)) (wrote s)
@@ -994,7 +1105,7 @@ Definition sched_two_two : list event :=
   into_restore 0 ++ [(0, SRestore 1); (1, SStart); (0, SRestore 0); (0, SSetFlag); (0, SUnlock); (0, SOuterUnlock);
    (1, SOuterLock); (0, SRunCmd); (1, SCheckFlag); (1, SOuterUnlock); (1, SRunCmd)].
 
-Lemma depload_nonvacuous : complete_and_current 2 2 no_blob_missing sched_two_two 2 0 = true.
+Lemma depload_nonvacuous : complete_and_current 2 2 no_blob_missing false sched_two_two 2 0 = true.
 Proof. vm_compute. reflexivity. Qed.
 
 (* 2 dependants, 2 outputs, the blob of output 1 is lost: 0 restores output 0, fails on output 1, re-runs d (1 waits at the
@@ -1005,12 +1116,23 @@ Definition sched_fault : list event :=
    (0, SRerunWrite 0); (0, SComplete); (0, SOuterUnlock); (1, SOuterLock); (1, SCheckFlag); (0, SRunCmd);
    (1, SOuterUnlock); (1, SRunCmd)].
 
-Lemma depload_fault_nonvacuous : complete_and_current 2 2 only_blob_1_missing sched_fault 1 1 = true.
+Lemma depload_fault_nonvacuous : complete_and_current 2 2 only_blob_1_missing false sched_fault 1 1 = true.
+Proof. vm_compute. reflexivity. Qed.
+
+(* 2 dependants, 2 outputs, no blob lost, the result lookups fail: 0 finds the flag false under the lock, cannot read the
+   result, re-runs d at once (nothing is restored, Registry.LoadOutputs is never entered); 1 waits at the outer lock, then
+   finds the flag set; exactly one re-run, both commands see current outputs *)
+Definition sched_result_fault : list event :=
+  [(0, SStart); (0, SOuterLock); (0, SCheckFlag); (0, SLoadResult); (1, SStart); (0, SRerunStart); (0, SRerunWrite 1);
+   (0, SRerunWrite 0); (0, SComplete); (0, SOuterUnlock); (1, SOuterLock); (1, SCheckFlag); (0, SRunCmd);
+   (1, SOuterUnlock); (1, SRunCmd)].
+
+Lemma depload_result_fault_nonvacuous : complete_and_current 2 2 no_blob_missing true sched_result_fault 0 1 = true.
 Proof. vm_compute. reflexivity. Qed.
 
 (* while 0 holds the outer lock, 1 cannot take it *)
 Lemma lock_blocks_nonvacuous :
-  run VCorrect 2 (init 2 no_blob_missing) [(0, SStart); (0, SOuterLock); (1, SStart); (1, SOuterLock)] = None.
+  run VCorrect 2 (init 2 no_blob_missing false) [(0, SStart); (0, SOuterLock); (1, SStart); (1, SOuterLock)] = None.
 Proof. vm_compute. reflexivity. Qed.
 
 (* ------------------------------------------------------------------ the tie evaluates runs of the model *)
@@ -1021,58 +1143,58 @@ Proof.
   destruct (step v n s (t, st)) as [s1|] eqn:E; [|now apply IH]. injection H as <-. now exists (t, st).
 Qed.
 
-Lemma settle_reachable : forall v n k miss ts fuel s, reachable v n k miss s -> reachable v n k miss (settle fuel v n ts s).
+Lemma settle_reachable : forall v n k miss rf ts fuel s, reachable v n k miss rf s -> reachable v n k miss rf (settle fuel v n ts s).
 Proof.
-  intros v n k miss ts fuel. induction fuel as [|f IH]; intros s Hr; cbn [settle]; [exact Hr|].
+  intros v n k miss rf ts fuel. induction fuel as [|f IH]; intros s Hr; cbn [settle]; [exact Hr|].
   destruct (first_auto v n s ts) as [s1|] eqn:E; [|exact Hr].
-  apply IH. destruct (first_auto_step v n ts s s1 E) as [e He]. exact (reachable_step v n k miss s e s1 Hr He).
+  apply IH. destruct (first_auto_step v n ts s s1 E) as [e He]. exact (reachable_step v n k miss rf s e s1 Hr He).
 Qed.
 
-Lemma do_token_reachable : forall v asc n k miss s tok, reachable v n k miss s ->
-  reachable v n k miss (snd (do_token v asc n k s tok)).
+Lemma do_token_reachable : forall v asc n k miss rf s tok, reachable v n k miss rf s ->
+  reachable v n k miss rf (snd (do_token v asc n k s tok)).
 Proof.
-  intros v asc n k miss s tok Hr. unfold do_token.
+  intros v asc n k miss rf s tok Hr. unfold do_token.
   destruct (token_event n s (task_order asc k) tok) as [e|]; [|exact Hr].
   destruct (step v n s e) as [s1|] eqn:E; [|exact Hr]. cbn [snd].
-  apply settle_reachable. exact (reachable_step v n k miss s e s1 Hr E).
+  apply settle_reachable. exact (reachable_step v n k miss rf s e s1 Hr E).
 Qed.
 
-Lemma replay_from_reachable : forall v asc n k miss toks s, reachable v n k miss s ->
-  reachable v n k miss (snd (replay_from v asc n k s toks)).
+Lemma replay_from_reachable : forall v asc n k miss rf toks s, reachable v n k miss rf s ->
+  reachable v n k miss rf (snd (replay_from v asc n k s toks)).
 Proof.
-  intros v asc n k miss toks. induction toks as [|tok r IH]; intros s Hr; cbn [replay_from snd]; [exact Hr|].
+  intros v asc n k miss rf toks. induction toks as [|tok r IH]; intros s Hr; cbn [replay_from snd]; [exact Hr|].
   apply IH. now apply do_token_reachable.
 Qed.
 
-Lemma replay_state_reachable : forall v asc n k miss toks,
-  reachable v n k miss (snd (replay_from v asc n k (init k miss) toks)).
-Proof. intros v asc n k miss toks. apply replay_from_reachable. now exists []. Qed.
+Lemma replay_state_reachable : forall v asc n k miss rf toks,
+  reachable v n k miss rf (snd (replay_from v asc n k (init k miss rf) toks)).
+Proof. intros v asc n k miss rf toks. apply replay_from_reachable. now exists []. Qed.
 
 (* the fuel of [settle] is enough: afterwards no step that needs no token is enabled *)
-Lemma settle_quiescent : forall n k miss ts fuel s, Inv n k miss s -> measure n k s <= fuel ->
+Lemma settle_quiescent : forall n k miss rf ts fuel s, Inv n k miss rf s -> measure n k s <= fuel ->
   first_auto VCorrect n (settle fuel VCorrect n ts s) ts = None.
 Proof.
-  intros n k miss ts fuel. induction fuel as [|f IH]; intros s I Hm; cbn [settle].
+  intros n k miss rf ts fuel. induction fuel as [|f IH]; intros s I Hm; cbn [settle].
   - destruct (first_auto VCorrect n s ts) as [s1|] eqn:E; [|reflexivity].
-    destruct (first_auto_step _ n ts s s1 E) as [e He]. assert (Hd := step_decreases n k miss s e s1 I He). lia.
+    destruct (first_auto_step _ n ts s s1 E) as [e He]. assert (Hd := step_decreases n k miss rf s e s1 I He). lia.
   - destruct (first_auto VCorrect n s ts) as [s1|] eqn:E; [|exact E].
-    destruct (first_auto_step _ n ts s s1 E) as [e He]. assert (Hd := step_decreases n k miss s e s1 I He).
-    apply IH; [exact (inv_step n k miss s e s1 I He)|lia].
+    destruct (first_auto_step _ n ts s s1 E) as [e He]. assert (Hd := step_decreases n k miss rf s e s1 I He).
+    apply IH; [exact (inv_step n k miss rf s e s1 I He)|lia].
 Qed.
 
-Lemma measure_le_init : forall n k miss s, reachable VCorrect n k miss s -> measure n k s <= run_bound n k.
+Lemma measure_le_init : forall n k miss rf s, reachable VCorrect n k miss rf s -> measure n k s <= run_bound n k.
 Proof.
-  intros n k miss s [evs H]. assert (Hl := run_length n k miss evs (init k miss) s (inv_init n k miss) H).
+  intros n k miss rf s [evs H]. assert (Hl := run_length n k miss rf evs (init k miss rf) s (inv_init n k miss rf) H).
   rewrite measure_init in Hl. lia.
 Qed.
 
-Lemma do_token_quiescent : forall asc n k miss s tok, reachable VCorrect n k miss s ->
+Lemma do_token_quiescent : forall asc n k miss rf s tok, reachable VCorrect n k miss rf s ->
   fst (do_token VCorrect asc n k s tok) = true ->
   first_auto VCorrect n (snd (do_token VCorrect asc n k s tok)) (task_order asc k) = None.
 Proof.
-  intros asc n k miss s tok Hr. unfold do_token.
+  intros asc n k miss rf s tok Hr. unfold do_token.
   destruct (token_event n s (task_order asc k) tok) as [e|]; [|discriminate].
   destruct (step VCorrect n s e) as [s1|] eqn:E; [|discriminate]. cbn [fst snd]. intros _.
-  assert (Hr1 := reachable_step _ n k miss s e s1 Hr E).
-  apply (settle_quiescent n k miss); [exact (inv_reachable n k miss s1 Hr1)|exact (measure_le_init n k miss s1 Hr1)].
+  assert (Hr1 := reachable_step _ n k miss rf s e s1 Hr E).
+  apply (settle_quiescent n k miss rf); [exact (inv_reachable n k miss rf s1 Hr1)|exact (measure_le_init n k miss rf s1 Hr1)].
 Qed.
